@@ -434,7 +434,9 @@ fn real_req_case(rng: &mut Rng, e: usize, query: &str, body: &str) -> Option<Req
     let seed = ReqSeed {
         path_args: names.iter().map(|n| path_arg(rng, n)).collect(),
         query: fill_query(rng, query),
-        headers: vec![],
+        // a request as it arrives carries a Content-Type; without one, endpoints with a raw body
+        // and an optional `Content-Type` header field run into finding F17 (kept in corpus/)
+        headers: vec![("content-type".to_owned(), "application/json".to_owned())],
         body: if body.is_empty() {
             vec![]
         } else {
